@@ -63,8 +63,9 @@ type Session struct {
 	Tag    string
 	Defs   []*Def
 	Inputs []*Expr
-	// definitions of which EVERY execution writes an existing root binding (Writers), or calls such a definition
-	// (Callers): the generator asserts it; no call of theirs may ever be remembered (model-free store oracle)
+	// definitions of which EVERY execution is impure - writes an existing root binding, reads a mutable or an unbound
+	// global - (Writers), or calls such a definition (Callers): the generator asserts it; no call of theirs may ever
+	// be remembered (model-free store oracle, signatures remembered:impure-call / remembered:caller-of-impure-call)
 	Writers, Callers []int
 }
 
@@ -223,6 +224,8 @@ func (e *Expr) src(s *Session) string {
 		return "del(" + e.X + ")"
 	case 'K':
 		return "catch(" + e.Sub[0].src(s) + ").err"
+	case 'Z':
+		return e.X
 	}
 	panic("bad expr")
 }
@@ -267,6 +270,8 @@ func (e *Expr) enc() string {
 		return "D " + Hx([]byte(e.X))
 	case 'K':
 		return "K " + e.Sub[0].enc()
+	case 'Z':
+		return "Z " + Hx([]byte(e.X))
 	}
 	panic("bad expr")
 }
@@ -388,6 +393,11 @@ func closedFn(d *Def) bool {
 }
 
 func (s *Session) closed() bool {
+	for _, in := range s.Inputs {
+		if in.K == 'Z' { // raw source: outside the model's language, so outside its fragment
+			return false
+		}
+	}
 	keys := map[string]bool{}
 	for _, d := range s.Defs {
 		if !closedFn(d) || keys[d.Key] {
@@ -620,12 +630,12 @@ func (c *Ctx2) session(s *Session) {
 		for _, e := range sg.Entries {
 			for _, w := range s.Writers {
 				if strings.HasPrefix(e, Hx([]byte(s.Defs[w].Key))+"(") {
-					bad = "remembered:call-that-writes-outer-binding"
+					bad = "remembered:impure-call"
 				}
 			}
 			for _, w := range s.Callers {
 				if bad == "" && strings.HasPrefix(e, Hx([]byte(s.Defs[w].Key))+"(") {
-					bad = "remembered:caller-of-outer-writer"
+					bad = "remembered:caller-of-impure-call"
 				}
 			}
 			if bad != "" {
@@ -775,6 +785,23 @@ func corpus() []*Session {
 		k := s.fn("", nil, iff(cerr(add(li(1), v("A"))), li(-1), add(li(1), v("A"))))
 		s.Writers = []int{f.D}
 		s.Inputs = []*Expr{asg("f", f), cn("f"), cn("f"), asg("a", li(2)), cn("f"), del("a"), cn("f"), asg("k", k), cn("k"), asg("A", li(2)), cn("k"), cn("k")}
+	})
+	// an impure callee whose result is a closure / an error still poisons its caller
+	mk("mech:impure-callee-returns-closure-or-error", func(s *Session) {
+		lam := func(k int64) *Expr { return s.fn("", nil, li(k)) }
+		pick := s.fn("", nil, iff(lt(v("x"), li(1)), lam(10), lam(20)))
+		g := s.fn("", nil, call(cn("pick")))
+		e := s.fn("", nil, iff(lt(li(0), v("x")), er("bad"), li(1)))
+		f := s.fn("", nil, cerr(cn("e")))
+		s.Writers, s.Callers = []int{pick.D, e.D}, []int{g.D, f.D}
+		s.Inputs = []*Expr{asg("x", li(0)), asg("pick", pick), asg("g", g), cn("g"), cn("g"), asg("x", li(1)), cn("g"), asg("e", e), asg("f", f), cn("f"), cn("f"),
+			asg("x", li(0)), cn("f"), cn("g")}
+	})
+	// big arguments that print alike (1 vs 1.0) must not share an entry; direct oracle only (outside the model)
+	mk("mech:big-arguments-int-vs-float", func(s *Session) {
+		s.Inputs = []*Expr{raw("avg = func(a){tot=0; for v=a {tot=tot+v}; tot/len(a)}"), raw("avg([1,2,3,4,5,6,7,8,10])"), raw("avg([1.0,2,3,4,5,6,7,8,10])"),
+			raw("half = func(m){println(\"half of\", m[9], type(m[9])); m[9]/2}"), raw("half({1:1,2:2,3:3,4:4,5:5,6:6,7:7,8:8,9:9})"),
+			raw("half({1:1,2:2,3:3,4:4,5:5,6:6,7:7,8:8,9:9.0})"), raw("half({9:9,8:8,7:7,6:6,5:5,4:4,3:3,2:2,1:1})")}
 	})
 	// mechanism: output replay, errors, DontCache, > MaxArgs, unhashable, fib
 	mk("mech:print-replay", func(s *Session) {
@@ -1377,6 +1404,96 @@ func (c *Ctx2) catchSession() *Session {
 	return s
 }
 
+// an impure callee (reads a mutable global) whose result is a closure or an error: the caller must still be poisoned
+// (the "never remember errors / functions" tests come AFTER the miss propagation in applyFunction)
+func (c *Ctx2) impureResultSession() *Session {
+	s := &Session{Tag: "random-impure-result"}
+	r := c.R
+	never := func(e *Expr, caller bool) *Expr {
+		f := e
+		if f.K == 'A' {
+			f = f.Sub[0]
+		}
+		if caller {
+			s.Callers = append(s.Callers, f.D)
+		} else {
+			s.Writers = append(s.Writers, f.D)
+		}
+		return e
+	}
+	lam := func(k int64) *Expr { return s.fn("", nil, li(k)) }
+	s.Inputs = append(s.Inputs, asg("x", li(0)))
+	kind := r.Intn(5)
+	top := "g"
+	switch kind {
+	case 0: // closure picked by a global, called at once
+		s.Inputs = append(s.Inputs, never(asg("pick", s.fn("", nil, iff(lt(v("x"), li(1)), lam(10), lam(20)))), false),
+			never(asg("g", s.fn("", nil, call(cn("pick")))), true))
+	case 1: // closure stored in a local first; in an array
+		s.Inputs = append(s.Inputs, never(asg("pick", s.fn("", nil, iff(lt(v("x"), li(1)), arr(lam(10)), arr(lam(20))))), false),
+			never(asg("g", s.fn("", nil, seq(asg("t", cn("pick")), prt(lit(vs("g"))), li(3)))), true))
+	case 2: // error or value, decided by a global, swallowed by catch in the caller
+		s.Inputs = append(s.Inputs, never(asg("pick", s.fn("", nil, iff(lt(v("x"), li(1)), er("bad"), li(1)))), false),
+			never(asg("g", s.fn("", nil, cerr(cn("pick")))), true))
+	case 3: // the same through a lambda called inside the callee
+		inner := s.fn("", nil, iff(lt(v("x"), li(1)), er("bad"), li(1)))
+		s.Inputs = append(s.Inputs, never(asg("pick", s.fn("", nil, call(inner))), false),
+			never(asg("g", s.fn("", nil, iff(cerr(cn("pick")), li(-1), li(5)))), true))
+	default: // a DontCache extension and an error
+		s.Inputs = append(s.Inputs, never(asg("pick", s.fn("", nil, seq(ext("r"), iff(lt(v("x"), li(1)), er("bad"), lam(1))))), false),
+			never(asg("g", s.fn("", nil, seq(prt(cerr(cn("pick"))), li(2)))), true))
+	}
+	if r.Bool() {
+		body := add(cn("g"), li(1))
+		if kind == 2 {
+			body = iff(cn("g"), li(0), li(1))
+		}
+		s.Inputs = append(s.Inputs, never(asg("h", s.fn("", nil, body)), true))
+		top = "h"
+	}
+	names := []string{"g", top}
+	for round := 0; round < 3; round++ {
+		for i, n := 0, 2+r.Intn(2); i < n; i++ {
+			s.Inputs = append(s.Inputs, cn(names[r.Intn(2)]))
+		}
+		s.Inputs = append(s.Inputs, asg("x", li(int64((round+1)%2))))
+	}
+	s.Inputs = append(s.Inputs, cn(top))
+	return s
+}
+
+func raw(src string) *Expr { return &Expr{K: 'Z', X: src} }
+
+// big (more than 8 elements) array and map arguments that differ only in int vs integral float, -0.0 vs 0.0, the type
+// of a nested element, or the order of a map literal: indexing, division and type() tell them apart. Outside the
+// model's language (the model answers SKIP): direct oracle only.
+func (c *Ctx2) bigArgSession() *Session {
+	s := &Session{Tag: "random-bigarg"}
+	r := c.R
+	type fam struct {
+		def  string
+		args []string
+	}
+	tail := ",3,4,5,6,7,8,9"
+	fams := []fam{
+		{"fa = func(a){println(a[0]/2); 1.0/a[1]}", []string{"[1,0.0" + tail + "]", "[1.0,0.0" + tail + "]", "[1,-0.0" + tail + "]", "[1.0,-0.0" + tail + "]", "[1,0.0,3]", "[1.0,0.0,3]"}},
+		{"fa = func(a){type(a[0])}", []string{"[1,2" + tail + "]", "[1.0,2" + tail + "]", "[\"1\",2" + tail + "]", "[1,2,3]", "[1.0,2,3]"}},
+		{"fa = func(a){print(\"n\"); a[0][0]/2}", []string{"[[1],2" + tail + "]", "[[1.0],2" + tail + "]", "[[1,0],2" + tail + "]", "[[1.0,0],2" + tail + "]"}},
+		{"fa = func(m){println(m[9]/2, type(m[1]))}", []string{"{1:1,2:2,3:3,4:4,5:5,6:6,7:7,8:8,9:9}", "{9:9.0,8:8,7:7,6:6,5:5,4:4,3:3,2:2,1:1}",
+			"{9:9,8:8,7:7,6:6,5:5,4:4,3:3,2:2,1:1}", "{1:1.0,2:2,3:3,4:4,5:5,6:6,7:7,8:8,9:9}", "{1:1,9:9}", "{1:1.0,9:9}"}},
+		{"fa = func(a, b){a[8]/2 + b[0]/2}", []string{"[1,2" + tail + "],[1,2" + tail + "]", "[1,2,3,4,5,6,7,8,9.0],[1,2" + tail + "]", "[1,2" + tail + "],[1.0,2" + tail + "]"}},
+	}
+	f := fams[r.Intn(len(fams))]
+	s.Inputs = append(s.Inputs, raw(f.def))
+	if r.Bool() {
+		s.Inputs = append(s.Inputs, raw("fb = func(){fa("+f.args[0]+")}"), raw("fb()"))
+	}
+	for i, n := 0, 5+r.Intn(6); i < n; i++ {
+		s.Inputs = append(s.Inputs, raw("fa("+f.args[r.Intn(len(f.args))]+")"))
+	}
+	return s
+}
+
 func runC04(c0 *Ctx) {
 	c := &Ctx2{Ctx: c0, seen: map[string]int{}}
 	log.SetOutput(io.Discard)
@@ -1392,7 +1509,7 @@ func runC04(c0 *Ctx) {
 		"oracle: no call of such a writer or of its callers may appear in the cache); each run cache on and cache off on the implementation (direct oracle) and on the extracted model. " +
 		"non-trivial = distinct session that ends with a non-empty cache"
 	// every identifier the generator uses must be free in a fresh state (not an extension, not a predefined function)
-	for _, name := range []string{"f", "g", "h", "id", "mk", "a", "b", "c", "d", "w", "k", "x", "y", "t", "n", "m", "p", "q", "r", "s", "X", "N", "F", "fib", "f2", "k4", "v", "nx", "tw", "tt", "m", "vf", "wy", "A"} {
+	for _, name := range []string{"f", "g", "h", "id", "mk", "a", "b", "c", "d", "w", "k", "x", "y", "t", "n", "m", "p", "q", "r", "s", "X", "N", "F", "fib", "f2", "k4", "v", "nx", "tw", "tt", "m", "vf", "wy", "A", "pick", "fa", "fb"} {
 		st := eval.NewState()
 		st.Out, st.LogOut = io.Discard, io.Discard
 		res, _ := evalProtected(st, parser.New(lexer.New(name)).ParseProgram())
@@ -1421,10 +1538,15 @@ func runC04(c0 *Ctx) {
 		case 4:
 			c.session(c.toggleSession())
 		case 5:
-			if i%20 == 5 {
+			switch (i / 10) % 4 {
+			case 0:
 				c.session(c.variadicSession())
-			} else {
+			case 1:
 				c.session(c.catchSession())
+			case 2:
+				c.session(c.impureResultSession())
+			default:
+				c.session(c.bigArgSession())
 			}
 		default:
 			c.session(c.randomSession(false))
